@@ -40,10 +40,13 @@ CHECKS = {
                 "instances): ids unique among live objects, termination hook exactly once per removed instance and never "
                 "for a live one, every message to an identifier no live object holds is answered with an error and "
                 "changes nothing, removed instances' counters are append-only, removal leaves other objects untouched; "
+                "Add with its real grain (two critical sections, the activation between them outside the lock: Model/ServiceAdd.lean, "
+                "Props/C16Add.lean): the invariant holds whatever runs in between, the pending identifier is refused, the second half "
+                "touches no other object, and the two halves with nothing in between are the one-step Add; "
                 "tied to service.go by regenerated lock/map operation sequences and exact differential runs against a "
-                "real server",
-        "note": "trusts the Lean kernel, the flow extractor, the harness' instrumented PingPong objects; sequential histories "
-                "only in the correspondence run",
+                "real server, with objects whose activation waits for the harness",
+        "note": "trusts the Lean kernel, the flow extractor, the harness' instrumented PingPong objects; sequential histories, "
+                "concurrent removals and removals of busy objects in the correspondence run",
         "technique": "Lean 4 proof (invariant by induction over operation histories) + regenerated tie lemmas + differential correspondence",
     },
     "C09": {
@@ -51,10 +54,13 @@ CHECKS = {
                 "the combinator semantics run on the grammar regenerated from signature.go returns exactly that type for its "
                 "printed signature, within the stack depth Parse allows (explicit fuel bound); printing is injective; the "
                 "grammar value is tied to init() by rfl, callbacks and post-checks by regenerated assertion lists; random / "
-                "near-miss / white-space / random-byte inputs are compared with the real parser incl. IDL name and Go type",
+                "near-miss / white-space / random-byte inputs are compared with the real parser incl. IDL name and Go type; "
+                "and the other direction, for every byte string (Props/C09Sound.lean): the parser answers with a type or an error "
+                "(parse_total: no callback meets a node it cannot handle, the call depth suffices), whatever it accepts is the printed "
+                "form of a type of the grammar up to the white space the tokeniser skips (parse_sound), parsing the printed form of "
+                "an accepted input gives the same type (fixed_point)",
         "note": "trusts the Lean kernel, the transcription of goparsec's combinators and of the two regular expressions, the "
-                "grammar translator; rejection of all other inputs and absence of callback panics are compared on samples, "
-                "not yet proved for all inputs; Type() panics on two classes of accepted signatures (known findings)",
+                "grammar translator; Type() panics on two classes of accepted signatures (known findings)",
         "technique": "Lean 4 proof (mutual structural induction over the signature AST on a deep-embedded PEG interpreter) + grammar regenerated and tied by rfl + differential correspondence",
     },
     "C02": {
@@ -96,8 +102,9 @@ CHECKS = {
                 "witnesses for the places where the code violates the property (generated readers allocate the wire count, "
                 "zero-size element loops); every entry point is additionally run on hostile inputs in child processes with "
                 "memory/time measurement and compared with the model's outcome class",
-        "note": "real time/memory are measured, not proved; absence of panics in the parser callbacks is compared on samples; "
-                "three open known findings (exponential signature parser, generated readers, zero-size loops)",
+        "note": "real time/memory are measured, not proved; that the signature parser answers every byte string with a type or an "
+                "error (no callback panic, the call depth it reckons with suffices) is proved (Props/C09Sound.parse_total), for the "
+                "IDL parser it is sampled; three open known findings (exponential signature parser, generated readers, zero-size loops)",
         "technique": "Lean 4 proof (bounds and exactness for all inputs; counter-example witnesses) + regenerated tie lemmas + child-process resource measurement",
     },
     "C17": {
@@ -187,8 +194,10 @@ CHECKS = {
                 "cancel request, received; after cancel the handler can be removed and nothing is added afterwards; no "
                 "event after the unregistration was handled; removing one user of the server's table keeps all others; "
                 "the two repaired defects are kept as refutation theorems of the old choices",
-        "note": "partial: an emission is modelled atomic w.r.t. (un)registration (the snapshot-then-send race of UpdateSignal is an "
-                "assumption), and the window's end is the dispatch position at the cancel request",
+        "note": "partial: the clause 'no event after the acknowledged removal' is false of the code when an emission had copied the users "
+                "before (Props/C13Emit.lean models UpdateSignal with its real grain: refutation event_after_acknowledgement = known finding; "
+                "what holds on every schedule: at most one such event, of the emission open at the acknowledgement); the window's end is the "
+                "dispatch position at the cancel request",
         "technique": "Lean 4 proof (log-segment and registration invariants by induction over action sequences, refutation witnesses) + regenerated tie lemmas + scripted hold/release correspondence and concurrent storms",
     },
     "C14": {
@@ -239,8 +248,9 @@ CHECKS = {
                 "their uids (interface_roundtrip); the repeated keywords are unreachable; the hypotheses are witnessed; tied by the regenerated keyword list, "
                 "alternative order, composite shapes, identifier patterns and printer formats, and by differential runs "
                 "of types, whole meta-objects and fuzzed text through the real parser",
-        "note": "partial: struct blocks, the package header and scope resolution are validated by the round-trip "
-                "oracle on generated meta-objects, not proved; parser totality is sampled",
+        "note": "partial: the end-to-end theorem (generateIDL_roundtrip, idl_roundtrip_of_signatures) holds for meta-objects without "
+                "name clashes; with clashes structs are renamed (known finding) and the text is compared with the model by the "
+                "differential run only; totality of the IDL parser on arbitrary text is sampled (child processes), not proved",
         "technique": "Lean 4 proof (print/parse round trip of the IDL type grammar by mutual induction) + regenerated tie lemmas + differential and round-trip runs, fuzzing in child processes",
     },
 }
